@@ -71,7 +71,7 @@ PROPS = {
     "C15": {"level": "exploration", "assumptions": BASE_ASSUME + ["background and threshold are read in-package from the detector; threshold tolerance +-1 for float accumulation"],
             "parts": [{"engine": "mp", "test": "TestVF_C15", "quick": (4, 4000), "thorough": (16, 40000)}]},
     "C10": {"level": "fault_enumeration", "assumptions": BASE_ASSUME + ["process kill only (as the property says); a kill on entering a file-system system call of the handleConn thread leaves exactly the on-disk state a concurrent observer could see at that instant", "strace (ptrace) is available; crash points are numbered on a reference run of the same stream and verified per run (misaligned runs are skipped and counted)", "the constant-recordings sub-directory is judged only by 'every .cptv decodes'; the start-up clean-up covers the top-level output directory"],
-            "parts": [{"engine": "e2e", "test": "TestVF_C10", "quick": (4, 1), "thorough": (16, 2), "quick_env": {"VERIF_C10_POINTS": 30}, "shrinktime": "1s", "quick_timeout": 600, "thorough_timeout": 3000}]},
+            "parts": [{"engine": "e2e", "test": "TestVF_C10", "quick": (8, 1), "thorough": (16, 2), "quick_env": {"VERIF_C10_POINTS": 30}, "shrinktime": "1s", "quick_timeout": 600, "thorough_timeout": 3000}]},
     "C11": {"level": "exploration", "assumptions": BASE_ASSUME + ["handleConn is driven over net.Pipe in lock step; no system D-Bus (calls to peer daemons fail fast and are ignored by the code); distinct recordings start in distinct milliseconds (the sender paces frames); altitude >= 0 (go-cptv does not store negative altitudes)"],
             "parts": [{"engine": "e2e", "test": "TestVF_C11", "quick": (4, 150), "thorough": (16, 1500), "shrinktime": "10s"}]},
     "C12": {"level": "exploration", "assumptions": MP_ASSUME + ["sink faults are injected by call ordinal on mock sinks; the real file recorder's own failure modes are exercised by the e2e checks"],
